@@ -352,7 +352,7 @@ func runC07_10(c *core.Ctx) {
 			handsOver := func(n ast.Node) bool {
 				for _, call := range flow.Calls(n) {
 					// eng.eventLoops.register(el) with el an owner
-					if cf := flow.CalleeFunc(f.Info, call); cf != nil && cf.Name() == "register" && len(call.Args) == 1 {
+					if cf := flow.CalleeFunc(f.Info, call); cf != nil && nameOf(cf) == "register" && len(call.Args) == 1 {
 						arg := ast.Unparen(call.Args[0])
 						if u, ok := arg.(*ast.UnaryExpr); ok && u.Op == token.AND {
 							arg = ast.Unparen(u.X)
@@ -367,7 +367,7 @@ func runC07_10(c *core.Ctx) {
 				}
 				if as, ok := n.(*ast.AssignStmt); ok { // eng.ingress = el
 					for k, l := range as.Lhs {
-						if fl := flow.FieldOf(f.Info, l); fl != nil && fl.Name() == "ingress" && len(as.Rhs) == len(as.Lhs) {
+						if fl := flow.FieldOf(f.Info, l); fl != nil && nameOf(fl) == "ingress" && len(as.Rhs) == len(as.Lhs) {
 							if o := flow.ObjOf(f.Info, as.Rhs[k]); o != nil && owners[o] {
 								return true
 							}
@@ -477,7 +477,7 @@ func runC07_11(c *core.Ctx) {
 	}
 	n := 0
 	for _, f := range v.funcs {
-		if !ast.IsExported(f.Obj.Name()) || f.Obj.Name() == "Start" {
+		if !ast.IsExported(f.Obj.Name()) || nameOf(f.Obj) == "Start" {
 			continue
 		}
 		const fRunning = 1
@@ -524,7 +524,7 @@ func runC07_12(c *core.Ctx) {
 		}
 		isCtor := func(call *ast.CallExpr) bool {
 			cf := flow.CalleeFunc(f.Info, call)
-			return cf != nil && v.byObj[cf] != nil && (cf.Name() == "newStreamConn" || cf.Name() == "newUDPConn")
+			return cf != nil && v.byObj[cf] != nil && (nameOf(cf) == "newStreamConn" || nameOf(cf) == "newUDPConn")
 		}
 		// fd variable -> conn variable built from it
 		type built struct {
@@ -802,13 +802,13 @@ func runC07_13(c *core.Ctx) {
 				touchesAtAll = true
 			}
 			if call, ok := n.(*ast.CallExpr); ok {
-				if cf := flow.CalleeFunc(f.Info, call); cf != nil && (cf.Name() == "write" || cf.Name() == "writev") && v.byObj[cf] != nil {
+				if cf := flow.CalleeFunc(f.Info, call); cf != nil && (nameOf(cf) == "write" || nameOf(cf) == "writev") && v.byObj[cf] != nil {
 					touchesAtAll = true
 				}
 			}
 			return true
 		})
-		if f.Obj.Name() == "Fd" {
+		if nameOf(f.Obj) == "Fd" {
 			continue // hands out the number, performs no system call
 		}
 		if len(sites) > 0 {
@@ -1410,7 +1410,7 @@ func runC07_18(c *core.Ctx) {
 	ast.Inspect(f.Decl.Body, func(n ast.Node) bool {
 		if as, ok := n.(*ast.AssignStmt); ok && len(as.Lhs) == 1 && len(as.Rhs) == 1 {
 			if call, ok := ast.Unparen(as.Rhs[0]).(*ast.CallExpr); ok {
-				if cf := flow.CalleeFunc(f.Info, call); cf != nil && (cf.Name() == "newStreamConn" || cf.Name() == "newUDPConn") {
+				if cf := flow.CalleeFunc(f.Info, call); cf != nil && (nameOf(cf) == "newStreamConn" || nameOf(cf) == "newUDPConn") {
 					owner = flow.ObjOf(f.Info, as.Lhs[0])
 				}
 			}
@@ -1430,7 +1430,7 @@ func runC07_18(c *core.Ctx) {
 	au.Node = func(b *flow.Block, i int, n ast.Node, st int) int {
 		if as, ok := n.(*ast.AssignStmt); ok && len(as.Lhs) == 1 && flow.ObjOf(f.Info, as.Lhs[0]) == owner {
 			if call, ok := ast.Unparen(as.Rhs[0]).(*ast.CallExpr); ok {
-				if cf := flow.CalleeFunc(f.Info, call); cf != nil && (cf.Name() == "newStreamConn" || cf.Name() == "newUDPConn") {
+				if cf := flow.CalleeFunc(f.Info, call); cf != nil && (nameOf(cf) == "newStreamConn" || nameOf(cf) == "newUDPConn") {
 					return sOwned
 				}
 			}
